@@ -245,9 +245,27 @@ class InductionGroup:
         self.n = z3.Length(self.s)
         self.init = z3.SubSeq(self.s, 0, self.n - 1)
         self.s0 = fresh('ind0', vl.SeqVal)   # (a ground empty sequence makes z3's rewriter unfold without end)
+        self.goal = self.strengthen(ob.goal)
         self.h0 = [p for p in ob.pc if not mentions(p, const)]
         self.cands = [p for p in ob.pc if mentions(p, const)]
         self.Ob = Obligation
+
+    @staticmethod
+    def strengthen(goal):
+        """f(.., A, ..) == f(.., B, ..) follows from A == B: induct on the inner equality (e.g. the
+        joined texts are equal because the lists of texts are)"""
+        g = goal
+        for _ in range(4):
+            if not (z3.is_eq(g) and g.num_args() == 2):
+                break
+            a, b = g.arg(0), g.arg(1)
+            if not (z3.is_app(a) and z3.is_app(b) and a.decl().eq(b.decl()) and a.num_args() == b.num_args() and a.num_args() > 0):
+                break
+            diff = [(x, y) for x, y in zip(a.children(), b.children()) if not x.eq(y)]
+            if len(diff) != 1:
+                break
+            g = diff[0][0] == diff[0][1]
+        return g
 
     def at(self, t, x):
         return z3.substitute(t, (self.const, x))
@@ -277,13 +295,13 @@ class InductionGroup:
     def induction_obligations(self, closed_flags):
         hyp = list(self.h0) + [c for c, ok in zip(self.cands, closed_flags) if ok]
         base = self.Ob(self.ob.name + '.ind-base', self.ob.kind,
-                       [z3.Length(self.s0) == 0] + [self.at(h, self.s0) for h in hyp], self.at(self.ob.goal, self.s0), self.ob.info)
+                       [z3.Length(self.s0) == 0] + [self.at(h, self.s0) for h in hyp], self.at(self.goal, self.s0), self.ob.info)
         hs = [self.at(h, self.s) for h in hyp]
         # quantified hypotheses are also given instantiated at the last index (what one unfolding needs)
         extra = [x for x in (self.instance(h, self.n - 1) for h in hs) if x is not None]
         step = self.Ob(self.ob.name + '.ind-step', self.ob.kind,
-                       [self.n > 0] + hs + extra + [self.at(self.ob.goal, self.init)],
-                       self.at(self.ob.goal, self.s), self.ob.info)
+                       [self.n > 0] + hs + extra + [self.at(self.goal, self.init)],
+                       self.at(self.goal, self.s), self.ob.info)
         return [base, step]
 
 
